@@ -413,7 +413,13 @@ type lexGenOpts struct {
 	ng       bool // include non-greedy-shaped rules
 	epsRules bool // allow rules matching the empty string
 	accum    bool // allow action-less fragments
+	// non-greedy operators anywhere in a rule (only where the reference is the powerset of lox's own NFA: the
+	// derivative reference of C02/C08 knows the shape prefix body*? terminator only)
+	ngAnywhere bool
 }
+
+// set by genLexSpec for the terms it generates (generation is sequential)
+var lexNGAnywhere bool
 
 func genLexClass(r *rng) *classExpr {
 	e := &classExpr{neg: r.chance(1, 5)}
@@ -490,6 +496,10 @@ func genLexTerm(r *rng, depth int, macroNames []string) lterm {
 		t.card = "*"
 	case 2:
 		t.card = "+"
+	case 3:
+		if lexNGAnywhere && r.chance(1, 2) {
+			t.card = pick(r, []string{"*?", "+?"})
+		}
 	}
 	return t
 }
@@ -648,6 +658,7 @@ func genSmallRangeSpec(r *rng) *lspec {
 }
 
 func genLexSpec(r *rng, o lexGenOpts) *lspec {
+	lexNGAnywhere = o.ngAnywhere
 	if r.chance(1, 6) {
 		return genSmallRangeSpec(r)
 	}
@@ -798,18 +809,22 @@ func genLexSpec(r *rng, o lexGenOpts) *lspec {
 		s.items = append(s.items[:pos], append([]litem{{mode: m}}, s.items[pos:]...)...)
 	}
 	if !o.epsRules {
-		// C02's hypothesis: no rule matches the empty string
-		macros := s.macros()
-		for _, m := range s.modeList() {
-			for _, it := range m.items {
-				if it.rule != nil && s.nullableAlts(it.rule.alts, macros, 0) {
-					it.rule.alts = append([][]lterm{}, [][]lterm{{{re: &lre{kind: 0, lit: []int{pick(r, lexAlphabet)}}}}}...)
-					it.rule.ng = false
-				}
+		s.ensureNoEmptyMatch(r)
+	}
+	return s
+}
+
+// ensureNoEmptyMatch: C02's hypothesis — no rule matches the empty string
+func (s *lspec) ensureNoEmptyMatch(r *rng) {
+	macros := s.macros()
+	for _, m := range s.modeList() {
+		for _, it := range m.items {
+			if it.rule != nil && s.nullableAlts(it.rule.alts, macros, 0) {
+				it.rule.alts = append([][]lterm{}, [][]lterm{{{re: &lre{kind: 0, lit: []int{pick(r, lexAlphabet)}}}}}...)
+				it.rule.ng = false
 			}
 		}
 	}
-	return s
 }
 
 // ---- inputs ----
